@@ -44,6 +44,10 @@ def run_export(case):
         m = load_model(params)
         res = {}
         try:
+            # per-template channel lists in force when the cluster waveforms were computed (at load time,
+            # before the neighbourhood size is changed below)
+            chans_w_at_load = [[int(c) for c in m.get_template(t, unwhiten=False).channel_ids]
+                               for t in range(int(m.n_templates))]
             if case.get('n_closest'):
                 m.n_closest_channels = case['n_closest']
             res['src_model'] = dict(
@@ -58,6 +62,7 @@ def run_export(case):
                 clusters_wfs=np.asarray(m.sparse_clusters.data, dtype=np.float64).tolist(),
                 amplitudes=[float(x) for x in m.amplitudes], has_features=m.sparse_features is not None,
                 sample_rate=float(m.sample_rate), n_closest=int(m.n_closest_channels))
+            res['src_model']['chans_w'] = chans_w_at_load
             if m.sparse_features is not None:
                 dep = m.get_depths()
                 res['src_model']['depths'] = None if dep is None else [None if np.isnan(x) else float(x) for x in dep]
